@@ -170,7 +170,7 @@ def _scan_worker_output(prop, exe, seed, outdir, tag, rc, res):
             pass
 
 
-def run_config(prop, cfg, exe, seed, budget, nworkers, tmp, runs_cap=10 ** 9, chunk=0):
+def run_config(prop, cfg, exe, seed, budget, nworkers, tmp, runs_cap=10 ** 9, chunk=0, start=0):
     """chunk == 0: nworkers long-lived processes share the run indices round-robin.
     chunk > 0: a pool of short-lived processes, each executing `chunk` consecutive run indices, so that one run in
     `chunk` starts from a fresh process image (first-use effects such as lazy initialisation)."""
@@ -192,7 +192,7 @@ def run_config(prop, cfg, exe, seed, budget, nworkers, tmp, runs_cap=10 ** 9, ch
                     counter["next"] += 1
                 with open(os.path.join(outdir, "out-%d.txt" % c), "w") as log:
                     runs = min(chunk, runs_cap - c * chunk)
-                    rc = subprocess.call([exe, "run", "--prop", prop, "--seed", str(seed), "--start", str(c * chunk), "--runs", str(runs), "--tag", str(c),
+                    rc = subprocess.call([exe, "run", "--prop", prop, "--seed", str(seed), "--start", str(start + c * chunk), "--runs", str(runs), "--tag", str(c),
                                           "--outdir", outdir, "--data", DATA], stdout=log, stderr=subprocess.STDOUT)
                 with lock:
                     _scan_worker_output(prop, exe, seed, outdir, c, rc, res)
@@ -204,7 +204,7 @@ def run_config(prop, cfg, exe, seed, budget, nworkers, tmp, runs_cap=10 ** 9, ch
     procs = []
     for w in range(nworkers):
         log = open(os.path.join(outdir, "out-%d.txt" % w), "w")
-        p = subprocess.Popen([exe, "run", "--prop", prop, "--seed", str(seed), "--runs", str(runs_cap), "--worker", str(w), "--nworkers", str(nworkers),
+        p = subprocess.Popen([exe, "run", "--prop", prop, "--seed", str(seed), "--start", str(start), "--runs", str(runs_cap), "--worker", str(w), "--nworkers", str(nworkers),
                               "--budget", "%.1f" % budget, "--outdir", outdir, "--data", DATA], stdout=log, stderr=subprocess.STDOUT)
         procs.append((w, p, log))
     for w, p, log in procs:
@@ -283,12 +283,15 @@ def main():
                 break       # the tree already violates the property: the remaining configurations add nothing to the verdict
             nw = min(nworkers, 8) if cfg == "san" else nworkers      # 8 ASan workers is the knee
             chunk = 8 if prop == "C20" else 0       # C20: one run in eight starts from a fresh process image
+            # every configuration explores its own range of run indices (the deterministic sweeps at the low indices are
+            # repeated in each: generators key them on the index modulo 10^6)
+            start = [c for c, _ in plan].index(cfg) * 1000000
             if tier == "quick" and budget <= 0:
-                res = run_config(prop, cfg, exes[cfg], seed, 240.0, nw, tmp, runs_cap=int(share), chunk=chunk)      # fixed number of runs; the time limit is a safety net only
+                res = run_config(prop, cfg, exes[cfg], seed, 240.0, nw, tmp, runs_cap=int(share), chunk=chunk, start=start)      # fixed number of runs; the time limit is a safety net only
             elif tier == "quick":
-                res = run_config(prop, cfg, exes[cfg], seed, budget / len(plan), nw, tmp, chunk=chunk)               # POLYSIM_BUDGET given: time-boxed instead
+                res = run_config(prop, cfg, exes[cfg], seed, budget / len(plan), nw, tmp, chunk=chunk, start=start)               # POLYSIM_BUDGET given: time-boxed instead
             else:
-                res = run_config(prop, cfg, exes[cfg], seed, budget * share, nw, tmp, chunk=chunk)
+                res = run_config(prop, cfg, exes[cfg], seed, budget * share, nw, tmp, chunk=chunk, start=start)
             fresh[cfg] = res.get("fresh_processes", nw)
             workers_all[cfg] = res["workers"]
             if res["nondet"]:
@@ -302,9 +305,9 @@ def main():
             seen_cls = set()
             for pp in cands[:3]:
                 if chunk:
-                    lineage = lambda r, ch=chunk: ((r // ch) * ch, 1)
+                    lineage = lambda r, ch=chunk, st=start: (st + ((r - st) // ch) * ch, 1)
                 else:
-                    lineage = lambda r, n=nw: (r % n, n)
+                    lineage = lambda r, n=nw, st=start: (st + (r - st) % n, n)
                 kind, info = handle_candidate(prop, cfg, exes[cfg], pp, tmp, seed, lineage)
                 if kind == "violation":
                     if info[1] not in seen_cls:
